@@ -238,15 +238,23 @@ def rule_codeobj_fields(ctx):
     acc = {}
     for n in walk_no_nested(fn):
         if isinstance(n, ast.Assign) and isinstance(n.targets[0], ast.Name) and isinstance(n.value, ast.Call) and isinstance(n.value.func, ast.Name) \
-                and n.value.func.id in ('max', 'min') and len(n.value.args) == 2:
+                and n.value.func.id == 'max' and len(n.value.args) == 2:
             tgt = n.targets[0].id
-            a0 = n.value.args[0]
+            others = [a for a in n.value.args if not (isinstance(a, ast.Name) and a.id == tgt)]
             r.inst('acc:' + tgt, sample='%s = %s' % (tgt, node_src(n.value, 80)))
-            acc[tgt] = n.value.args[1]
-            if not (isinstance(a0, ast.Name) and a0.id == tgt):
+            acc[tgt] = others[0] if others else n.value.args[1]
+            if len(others) == 2:
                 r.violate('Code.GlobalState.generate_codeobject_constants:acc:%s' % tgt, rel, n.lineno,
                           'running maximum %s is updated from %s instead of from itself: its final value (and the width of the bit-field sized from it) ignores earlier functions, '
-                          'so larger counts are truncated in the code object description' % (tgt, node_src(a0, 30)))
+                          'so larger counts are truncated in the code object description' % (tgt, node_src(n.value.args[0], 30)))
+        elif isinstance(n, ast.If) and not n.orelse and len(n.body) == 1 and isinstance(n.body[0], ast.Assign) and isinstance(n.body[0].targets[0], ast.Name) \
+                and isinstance(n.test, ast.Compare) and len(n.test.ops) == 1 and isinstance(n.test.ops[0], (ast.Gt, ast.GtE, ast.Lt, ast.LtE)):
+            # the same accumulation written as `if x > m: m = x` (either orientation)
+            tgt = n.body[0].targets[0].id
+            sides = [n.test.left, n.test.comparators[0]]
+            if any(isinstance(x, ast.Name) and x.id == tgt for x in sides) and any(ast.dump(x) == ast.dump(n.body[0].value) for x in sides):
+                r.inst('acc:' + tgt, sample='if %s: %s = %s' % (node_src(n.test, 60), tgt, node_src(n.body[0].value, 40)))
+                acc[tgt] = n.body[0].value
     if len(acc) < 4:
         raise AnalysisError('only %d accumulators found in generate_codeobject_constants' % len(acc))
     # bit-fields:  "unsigned int NAME : {ACC.bit_length()};"
